@@ -35,7 +35,7 @@ func jsonEvents(text []byte, trailing bool) (evs []Event, eof bool, fail string)
 }
 
 // prelude: public calls issued on the same Document before the events are read
-// (0 none, 1 Check, 2 Len, 3 Check+Len): the stream must not depend on them.
+// (0 none, 1 Check, 2 Len, 3 Check+Len, 4.. some NextLexeme calls and then Check and / or Len): the stream must not depend on them.
 func jsonEventsAfter(text []byte, trailing bool, prelude int) (evs []Event, eof bool, fail string) {
 	defer func() {
 		if r := recover(); r != nil {
@@ -46,7 +46,16 @@ func jsonEventsAfter(text []byte, trailing bool, prelude int) (evs []Event, eof 
 	if trailing {
 		d = jdoc.New("doc", text, jdoc.AllowTrailingNonSpaceCharacters())
 	}
-	if prelude&1 != 0 {
+	if prelude >= 4 {
+		// read the first k lexemes, then Check (or Len): both rewind, the stream starts over
+		k := prelude/4 + prelude%3
+		for j := 0; j < k; j++ {
+			if _, err := d.NextLexeme(); err != nil {
+				break
+			}
+		}
+	}
+	if prelude&1 != 0 || prelude >= 4 && prelude&2 == 0 {
 		_ = d.Check()
 	}
 	if prelude&2 != 0 {
@@ -221,7 +230,7 @@ func init() {
 				fatal("length mismatch")
 			}
 			spell := func(t tokH) string { b, _ := hex.DecodeString(t.H); return string(b) }
-			got, eof, fail := jsonEventsAfter(text, false, i%4)
+			got, eof, fail := jsonEventsAfter(text, false, i%24)
 			atomic.AddInt64(&nJson, 1)
 			if !eof || !sameEvents(got, k.Events) {
 				atomic.AddInt64(&mism, 1)
@@ -298,7 +307,7 @@ func init() {
 			for j, t := range toks {
 				th[j] = tokH{C: t.C, N: t.N}
 			}
-			evs, eof, _ := jsonEventsAfter(text, false, i%4)
+			evs, eof, _ := jsonEventsAfter(text, false, i%24)
 			w.Write(line{"json", th, orEmpty(evs), eof, string(text)})
 			if !g.exp {
 				evs, fail := schemaEvents(text)
